@@ -50,7 +50,13 @@ Inductive case :=
   (* same set-up, but one of the other steps of persist() is made to return an error (system
      call filter in the child process): which = 0 CreateTemp, 1 Sync, 2 Close, 3 Rename *)
 | CaseFault (whitelist : list str) (old : str) (o : op) (which : nat) (local : option str) (temps : list str)
-            (re_m re_wild : list str) (old_m old_wild new_m new_wild : list str).
+            (re_m re_wild : list str) (old_m old_wild new_m new_wild : list str)
+  (* "blocked exactly when listed", end to end: a sequential history of REAL API calls with
+     their return values on a list whose memory was (m0, wild0, w), then queries through
+     ServeDNS (a real Chain ahead of a counting stub) — the memory is NOT dumped afterwards:
+     what is listed is what the calls acknowledged (Proofs_listed.listed_is_served) *)
+| CaseListed (m0 wild0 w : list str) (ops : list (op * N)) (nullroute null6route : N)
+             (probes : list (str * N * outcome)).
 
 (* ---- helpers *)
 Definition subset (a b : list str) : bool := forallb (fun x => mem x b) a.
@@ -340,6 +346,13 @@ Definition check_case (c : case) : bool :=
       opt_str_eqb local (d_local d) && is_nil temps && is_nil (d_temps d) &&
       let b := load_initial whitelist [] (disk_files d) in
       same_set (bm b) re_m && same_set (bwild b) re_wild
+  | CaseListed m0 wild0 w ops nr nr6 probes =>
+      (* the model's own run of the calls, then the model's ServeDNS on the memory IT reached *)
+      let '(ok, s) := run_ops ops (mk_sys (mk_bl m0 wild0 w) 0 0 None []) in
+      ok &&
+      forallb (fun pr => let '(q, qt, obs) := pr in
+                 outcome_eqb (serve (s_mem s) nr nr6 q qt) obs && str_eqb (present (raw_name_of q)) q)
+              probes
   end.
 
 Definition spec_reply (nr nr6 : N) (qname : str) (qtype : N) (obs : outcome) : bool :=
@@ -434,4 +447,16 @@ Definition spec_case (c : case) : bool :=
          previous complete file, byte for byte, and a restart comes back with the previous list *)
       let w := whitelist_of whitelist in
       opt_str_eqb local (Some old) && spec_equiv w old_m old_wild re_m re_wild
+  | CaseListed m0 wild0 w ops nr nr6 probes =>
+      (* the list the calls acknowledged (as names, from the calls and their return values
+         alone) decides every reply: blocked by the lower list -> null route / empty
+         authoritative answer, next handler not reached; not blocked by the upper list ->
+         untouched; in between (a batch accepted in part) nothing is said *)
+      let '(lo, hi) := nack_lists m0 wild0 ops in
+      let Wl := names_of w in
+      forallb (fun pr => let '(q, qt, obs) := pr in
+                 if spec_blocked_b (fst lo) (snd lo) Wl (name_of q) then spec_reply nr nr6 q qt obs
+                 else if spec_blocked_b (fst hi) (snd hi) Wl (name_of q) then true
+                 else outcome_eqb obs ONext)
+              probes
   end.
